@@ -32,9 +32,67 @@ def counters():
     return f() if f else None
 
 
+# coefficients that need more than a float's 24 significant bits, yet whose sums over a few terms stay exact in a double
+WIDE_BIG = [2 ** 25 + 1, -(2 ** 25) - 3, 2 ** 24 + 5, 2 ** 24 + 1, -(2 ** 24), 1, -2]
+WIDE_SMALL = [1 + 2 ** -30, -1 - 2 ** -29, 0.5 + 2 ** -31, 2, -1, 1]
+
+
+def user_mapping(rng, m):
+    """gives the labelled model a user-chosen enumeration, listed in an order unrelated to the indices"""
+    vs = list(m.variables)
+    if len(vs) < 2:
+        return None
+    idx = list(range(len(vs)))
+    rng.shuffle(idx)
+    items = list(zip(vs, idx))
+    rng.shuffle(items)
+    if rng.random() < 0.5:
+        m.set_mapping(dict(items))
+        return "set_mapping"
+    m.set_reverse_mapping({i: v for v, i in items})
+    return "set_reverse_mapping"
+
+
+def maxdev():
+    """largest |dE used - (E(after) - E(before))| / sum|coefficients| since the last call (H2 hook), or None"""
+    import sys
+    m = sys.modules.get("qubovert.sim._canneal")
+    f = getattr(m, "c_verif_maxdev", None)
+    return f() if f else None
+
+
+EXACT_TOL = 1e-13
+
+
+def hook_verdict(ctx, w, exact, what=""):
+    """Reads the H2 hook.  exact: every coefficient of the workload is a dyadic rational small enough that all the
+    kernel's sums are exact in a double, so the incrementally maintained dE must agree with the recomputed one to
+    the last bit (a kernel that keeps some intermediate in single precision deviates by ~1e-8).  False when a violation was recorded."""
+    c = counters()
+    if c is None:
+        return True
+    ctx.count("hook-dE-checks", c[0])
+    dev = maxdev()
+    if c[1] or c[2]:
+        ctx.violation("kernel-hook:" + ("dE-mismatch" if c[1] else "index-out-of-bounds"),
+                      "H2 hook reported mismatches=%d bounds=%d%s" % (c[1], c[2], what), w)
+        return False
+    if exact and dev is not None:
+        ctx.count("hook-exactness-verdicts")
+        if not dev <= EXACT_TOL:
+            ctx.violation("kernel-hook:dE-not-exact", "coefficients are exactly representable and summable, yet the dE used deviates from "
+                          "E(after) - E(before) by %.3g of the coefficient scale%s" % (dev, what), w)
+            return False
+    return True
+
+
 def make_config(rng, fn=None, big=False, coefs=None, maxvars=6, one_shot_ok=False):
     """Returns dict(fn, type, model, terms, kw, keys, kind) -- a documented-valid call."""
     fn = fn or rng.choice(FUNCS)
+    coef_kind = "given"
+    if coefs is None:
+        coef_kind = rng.choice(["dyadic"] * 7 + ["wide-big", "wide-big", "wide-small"])
+        coefs = {"dyadic": None, "wide-big": WIDE_BIG, "wide-small": WIDE_SMALL}[coef_kind]
     spin, d2 = is_spin(fn), is_deg2(fn)
     kind = "spin" if spin else "bool"
     tn = rng.choice(ACCEPT[fn])
@@ -53,11 +111,14 @@ def make_config(rng, fn=None, big=False, coefs=None, maxvars=6, one_shot_ok=Fals
         terms = gen.rand_terms(rng, labs, maxd, coefs=coefs, lo=1, hi=8)
         if tn == "dict":
             terms = {tuple(gen.sort_labels(k)): v for k, v in terms.items()}
+    mapped = None
     if tn == "dict":
         m = dict(terms)
     else:
         m = gen.model_of(getattr(L, tn), terms)
         m.refresh()
+        if not mat and rng.random() < 0.35:
+            mapped = user_mapping(rng, m)
     p = ref.from_raw(kind, dict(m))
     tv = p.vars()
     own = tn in OWN_MATRIX[fn]
@@ -78,6 +139,8 @@ def make_config(rng, fn=None, big=False, coefs=None, maxvars=6, one_shot_ok=Fals
             kw["schedule"] = tuple(kw["schedule"])
         if rng.random() < 0.15:
             kw["temperature_range"] = (2, 1)       # documented: ignored (with a warning) when an explicit schedule is given
+        if rng.random() < 0.25:
+            kw["anneal_duration"] = rng.choice([1, 2, 1000])     # documented: ignored when an explicit schedule is given
         r2 = rng.random()
         if r2 < 0.15:
             import numpy as np
@@ -99,7 +162,7 @@ def make_config(rng, fn=None, big=False, coefs=None, maxvars=6, one_shot_ok=Fals
     kw["seed"] = rng.choice([None, 0, 5, 2 ** 31 - 1])
     kw["num_anneals"] = rng.choice([-1, 0, 1, 1, 3, 7])
     return {"fn": fn, "type": tn, "model": m, "terms": dict(m), "kw": kw, "poly": p, "kind": kind,
-            "true_vars": tv, "full_keys": full, "own_matrix": own, "matrix": mat, "schedule_kind": sch}
+            "true_vars": tv, "full_keys": full, "own_matrix": own, "matrix": mat, "schedule_kind": sch, "user_mapping": mapped, "coef_kind": coef_kind}
 
 
 def describe(cfg):
